@@ -162,11 +162,27 @@ def same_sv(a: SV, b: SV) -> bool:
     return a.t is not None and b.t is not None and z3.eq(a.t, b.t)
 
 
+def _same_rec(a, b):
+    if a.rec is None and b.rec is None:
+        return True
+    if a.rec is None or b.rec is None:
+        return False
+    return set(a.rec) == set(b.rec) and all(repr(a.rec[k]) == repr(b.rec[k]) for k in a.rec) and set(a.req or ()) == set(b.req or ())
+
+
 def merge_ty(a, b):
+    """join of two static type hints.  Hints are ASSUMED at reads (TYPES), so the join keeps only what both sides declare:
+    element / key types and record layouts survive only when they agree"""
     if a is None or b is None:
         return None
     if a.kind == b.kind and a.cls == b.cls:
-        return a
+        if repr(a) == repr(b) and repr(a.key) == repr(b.key) and _same_rec(a, b) and repr(a.elts) == repr(b.elts):
+            return a
+        # (an absent element hint is what an empty literal `[]` / `{}` carries: it does not contradict the other side's)
+        elem = a.elem if (repr(a.elem) == repr(b.elem) or b.elem is None) else (b.elem if a.elem is None else None)
+        key = a.key if (repr(a.key) == repr(b.key) or b.key is None) else (b.key if a.key is None else None)
+        same = _same_rec(a, b)
+        return T(a.kind, a.cls, elem, key, a.opt or b.opt, a.elts if repr(a.elts) == repr(b.elts) else None, a.rec if same else None, a.req if same else None)
     return None
 
 
@@ -192,12 +208,22 @@ def merge_sv(c, a: SV, b: SV) -> SV:
     elif b.kind == 'none' and a.kind in ('bool', 'int', 'real', 'str'):
         ty = T(a.kind, opt=True)
     elif a.kind == 'val' and b.kind == 'val':
-        ty = a.ty if (a.ty is not None and b.ty is not None and repr(a.ty) == repr(b.ty)) else None
+        ty = a.ty if (a.ty is not None and b.ty is not None and repr(a.ty) == repr(b.ty) and repr(a.ty.key) == repr(b.ty.key) and _same_rec(a.ty, b.ty)) else None
     elif a.kind == 'val' and a.ty is not None and (b.kind == 'none' or _fits(b, a.ty)):
-        ty = a.ty
+        ty = _join_hint(a.ty, b)
     elif b.kind == 'val' and b.ty is not None and (a.kind == 'none' or _fits(a, b.ty)):
-        ty = b.ty
+        ty = _join_hint(b.ty, a)
     return SV('val', z3.If(c, to_val(a), to_val(b)), ty)
+
+
+def _join_hint(ty, other: SV):
+    """type hint of a value that is either of declared type `ty` or the value `other`: a RECORD type (dict with required
+    keys, whose presence is ASSUMED at reads) survives only when the other side is declared as the same record — a plain
+    dict such as a fresh `{}` does not have the required keys (`x = d['reaches'] or {}`)"""
+    if ty.rec is not None and other.kind == 'ref' and not (other.ty is not None and other.ty.rec is not None and repr(other.ty) == repr(ty)
+                                                           and set(other.ty.req or ()) == set(ty.req or ())):
+        return T(ty.kind, ty.cls, ty.elem, ty.key, ty.opt, ty.elts, None, None)
+    return ty
 
 
 def _fits(sv, ty):
